@@ -733,3 +733,117 @@ Proof.
   intros Hp Hq E. pose proof (unmarshal_stream_marshal_stream p r1 Hp) as E1.
   rewrite E, unmarshal_stream_marshal_stream in E1 by exact Hq. injection E1 as -> ->. split; reflexivity.
 Qed.
+
+(* ==== 7. a truncated encoding never yields a packet ============================================
+   Every reader step that succeeds on a stream s succeeds in the same way when more data follows
+   (s ++ x); so a success on a proper prefix of `wire p` would also be the result on the whole
+   encoding, where exact consumption leaves nothing -- but the cut-off part would be left. *)
+Lemma bind_ok {A B} (r : res A) (f : A -> res B) v : bind r f = Ok v -> exists a, r = Ok a /\ f a = Ok v.
+Proof. destruct r as [a| |]; cbn [bind]; [eauto | discriminate | discriminate]. Qed.
+
+Lemma read_full_fuel_mono : forall f k s acc r, read_full f k s acc = Ok r ->
+  forall f', (f <= f')%nat -> read_full f' k s acc = Ok r.
+Proof.
+  induction f as [|f IH]; intros k s acc r H f' Hf.
+  - cbn [read_full] in H. destruct (k <=? 0) eqn:E; [|discriminate]. destruct f'; cbn [read_full]; rewrite E; exact H.
+  - destruct f' as [|f']; [lia|]. cbn [read_full] in *. destruct (k <=? 0); [exact H|].
+    destruct (read1 k s) as [[got s1]|]; [|exact H]. apply (IH _ _ _ _ H). lia.
+Qed.
+
+Lemma read1_ext k s x : s <> [] ->
+  read1 k (s ++ x) = match read1 k s with Some (got, s1) => Some (got, s1 ++ x) | None => None end.
+Proof. destruct s as [|c rest]; [contradiction|]. intros _. cbn [app read1]. destruct (len c <=? k); reflexivity. Qed.
+
+Lemma read_full_ext : forall f k s acc r s' x, read_full f k s acc = Ok (r, s') ->
+  read_full f k (s ++ x) acc = Ok (r, s' ++ x).
+Proof.
+  induction f as [|f IH]; intros k s acc r s' x H.
+  - cbn [read_full] in *. destruct (k <=? 0); [|discriminate]. injection H as <- <-. reflexivity.
+  - cbn [read_full] in *. destruct (k <=? 0); [injection H as <- <-; reflexivity|].
+    destruct s as [|c rest]. { cbn [read1] in H. destruct (is_nil acc); discriminate. }
+    rewrite read1_ext by discriminate. destruct (read1 k (c :: rest)) as [[got s1]|]; [|destruct (is_nil acc); discriminate].
+    apply IH. exact H.
+Qed.
+
+Lemma read_full_src_ext k s r s' x : read_full (src_fuel s k) k s [] = Ok (r, s') ->
+  read_full (src_fuel (s ++ x) k) k (s ++ x) [] = Ok (r, s' ++ x).
+Proof.
+  intros H. apply (read_full_fuel_mono (src_fuel s k)); [apply read_full_ext; exact H|].
+  unfold src_fuel. rewrite app_length. lia.
+Qed.
+
+Lemma read_body_fuel_mono : forall f k s acc first r, read_body f k s acc first = Ok r ->
+  forall f', (f <= f')%nat -> read_body f' k s acc first = Ok r.
+Proof.
+  induction f as [|f IH]; intros k s acc first r H f' Hf.
+  - cbn [read_body] in H. destruct (k <=? 0) eqn:E; [|discriminate]. destruct f'; cbn [read_body]; rewrite E; exact H.
+  - destruct f' as [|f']; [lia|]. cbn [read_body] in *. destruct (k <=? 0); [exact H|].
+    destruct (read1 (Z.min k bufSize) s) as [[got s1]|]; [|exact H].
+    destruct (is_nil got); [destruct first; [exact H|]|]; apply (IH _ _ _ _ _ H); lia.
+Qed.
+
+Lemma read_body_ext : forall f k s acc first r s' x, read_body f k s acc first = Ok (r, s') ->
+  read_body f k (s ++ x) acc first = Ok (r, s' ++ x).
+Proof.
+  induction f as [|f IH]; intros k s acc first r s' x H.
+  - cbn [read_body] in *. destruct (k <=? 0); [|discriminate]. injection H as <- <-. reflexivity.
+  - cbn [read_body] in *. destruct (k <=? 0); [injection H as <- <-; reflexivity|].
+    destruct s as [|c rest]; [cbn [read1] in H; discriminate|].
+    rewrite read1_ext by discriminate. destruct (read1 (Z.min k bufSize) (c :: rest)) as [[got s1]|]; [|discriminate].
+    destruct (is_nil got); [destruct first; [discriminate|]|]; apply IH; exact H.
+Qed.
+
+Lemma read_device_ext s d s' x : read_device s = Ok (d, s') -> read_device (s ++ x) = Ok (d, s' ++ x).
+Proof.
+  unfold read_device. intros H. apply bind_ok in H. destruct H as ([d0 s0] & E & H).
+  rewrite (read_full_src_ext _ _ _ _ x E). cbn [bind].
+  destruct d0 as [|b d0]; [discriminate|]. destruct (b =? 0); [discriminate|]. injection H as <- <-. reflexivity.
+Qed.
+
+Lemma read_header_ext s h s' x : read_header s = Ok (h, s') -> read_header (s ++ x) = Ok (h, s' ++ x).
+Proof.
+  unfold read_header. intros H.
+  apply bind_ok in H. destruct H as ([d s1] & E1 & H). rewrite (read_device_ext _ _ _ x E1). cbn [bind].
+  apply bind_ok in H. destruct H as ([b s2] & E2 & H). rewrite (read_full_src_ext _ _ _ _ x E2). cbn [bind].
+  apply bind_ok in H. destruct H as ([[[[id job] fl] nt] cls] & E3 & H). rewrite E3. cbn [bind].
+  apply bind_ok in H. destruct H as (w & E4 & H). rewrite E4. cbn [bind].
+  apply bind_ok in H. destruct H as ([lb s3] & E5 & H). rewrite (read_full_src_ext _ _ _ _ x E5). cbn [bind].
+  injection H as <- <-. reflexivity.
+Qed.
+
+Lemma read_tags_ext : forall n s ts s' x, read_tags n s = Ok (ts, s') -> read_tags n (s ++ x) = Ok (ts, s' ++ x).
+Proof.
+  induction n as [|n IH]; intros s ts s' x H; cbn [read_tags] in *; [injection H as <- <-; reflexivity|].
+  apply bind_ok in H. destruct H as ([b s1] & E1 & H). rewrite (read_full_src_ext _ _ _ _ x E1). cbn [bind].
+  destruct (of_be b 0 =? 0); [discriminate|].
+  apply bind_ok in H. destruct H as ([ts0 s2] & E2 & H). rewrite (IH _ _ _ x E2). cbn [bind].
+  injection H as <- <-. reflexivity.
+Qed.
+
+Lemma unmarshal_ext s q s' x : unmarshal s = Ok (q, s') -> unmarshal (s ++ x) = Ok (q, s' ++ x).
+Proof.
+  unfold unmarshal. intros H.
+  apply bind_ok in H. destruct H as ([[[[[[d id] job] fl] nt] l] s1] & E1 & H). rewrite (read_header_ext _ _ _ x E1). cbn [bind].
+  apply bind_ok in H. destruct H as ([ts s2] & E2 & H). rewrite (read_tags_ext _ _ _ _ x E2). cbn [bind].
+  apply bind_ok in H. destruct H as ([pay s3] & E3 & H).
+  destruct (l =? 0).
+  - injection E3 as <- <-. cbn [bind]. injection H as <- <-. reflexivity.
+  - assert (E3' : read_body (body_fuel (s2 ++ x)) l (s2 ++ x) [] true = Ok (pay, s3 ++ x)).
+    { apply (read_body_fuel_mono (body_fuel s2)); [apply read_body_ext; exact E3|].
+      unfold body_fuel. rewrite concat_app, !app_length. lia. }
+    rewrite E3'. cbn [bind]. injection H as <- <-. reflexivity.
+Qed.
+
+Lemma no_empty_app s t : no_empty s -> no_empty t -> no_empty (s ++ t).
+Proof. unfold no_empty. intros. apply Forall_app. split; assumption. Qed.
+
+Theorem unmarshal_truncated p s u : wf p = true -> no_empty s -> concat s ++ u = wire p -> u <> [] ->
+  forall q s', unmarshal s <> Ok (q, s').
+Proof.
+  intros Hp Hs Hc Hu q s' H. apply (unmarshal_ext _ _ _ [u]) in H.
+  assert (Hs' : no_empty (s ++ [u])) by (apply no_empty_app; [exact Hs | constructor; [exact Hu | constructor]]).
+  destruct (unmarshal_wire p Hp (s ++ [u]) [] Hs') as (s2 & E & C & _).
+  { rewrite concat_app. cbn [concat]. rewrite !app_nil_r. exact Hc. }
+  rewrite E in H. injection H as _ ->. rewrite concat_app in C. cbn [concat] in C. rewrite app_nil_r in C.
+  apply app_eq_nil in C. destruct C as [_ C]. contradiction.
+Qed.
